@@ -7,9 +7,31 @@ K: result kind, completed I/O calls, bytes accepted, "marked" vs Tup.Model.Uploa
 F (from the property text): a fault inside the transmission ⇒ the error reaches the caller, no
 upload row for (id, terminal) appears/changes, needs_uploading stays true and the next request
 transmits the image again in full; fault-free ⇒ the mark happens after the last flush.
+
+Fault kinds: `io` (OSError, before / after the call took effect), `died` (the process dies there),
+`stall` (EAGAIN from call k on, persistently), `eagain` (ONE-SHOT BlockingIOError at call k only: before
+the call, after it, or after a prefix of the data of a write was accepted — a repetition goes through).
+
+Wire-level clause (F): every terminal is also a specification terminal (harness/c08.py `SpecTerminal`,
+which reads the command stream the way a terminal behind n tmux layers does).  What a request that
+returned normally wrote must be a sequence of WELL-FORMED, COMPLETE transmissions (no command cut off
+in the middle and followed by another), and afterwards that terminal must hold the requested image
+under the id.  A request for an image the terminal does not hold (or whose record expired) must
+transmit — so with a fault armed inside the program the error must reach the caller.
+
+History scenarios (`k = "scenario"`) put the faulted upload behind a fault-free pre-history on the same
+session database, under a controlled clock:
+  * `rebind`  — one id re-bound A → B → A (force_id) with the clock stepping BACK / standing still between
+                the uploads; the faulted request is the second upload of A;
+  * `expired` — the faulted request is a RE-upload of a record older than reupload_max_seconds_ago, and the
+                retry comes after a further clock advance (ages straddling multiples of 24 h included);
+  * `clients` — the image went to ANOTHER terminal of the session first (two tmux clients behind the
+                environment-driven fake tmux of harness/ptyhost.py, or two X windows), the faulted request
+                and the retry are made on a terminal that never received a byte.
 """
 from __future__ import annotations
 
+import datetime as _dt
 import json
 import os
 import shutil
@@ -17,6 +39,7 @@ import tempfile
 from pathlib import Path
 
 from . import e2e_util as U
+from .c08 import SpecTerminal, token_of_image
 from .common import Ctx
 
 DRIVERS = ["drv_e2e"]
@@ -26,6 +49,7 @@ EVIDENCE = dict(
         "the upload program shape (flush; write+flush per escape code; then mark_uploaded) is tied to the code by fault enumeration, not proved of the Python",
         "sqlite autocommit statement atomicity (mark_uploaded is one INSERT..ON CONFLICT statement)",
         "OS: a killed process writes nothing further (crash variant observes it)",
+        "the specification terminal of harness/c08.py (escape-code framing, tmux pass-through, chunk reassembly) and PIL's decoders judge what a terminal received",
     ],
 )
 
@@ -39,51 +63,259 @@ def tty():
     return _tty
 
 
-def _image_for(case, td):
-    """returns the `image` argument of upload()"""
-    img = U.noise_image(case["w"], case["h"], case["img_seed"])
+# ---------------------------------------------------------------------------------------------
+# controlled clock for tupimage.id_manager (history scenarios)
+# ---------------------------------------------------------------------------------------------
+class _Clock:
+    """`datetime.now()` of tupimage.id_manager: returns the harness's time, which advances by `tick_us` per reading
+    (0 = the clock stands still) and otherwise only when the scenario says so (forwards or BACKWARDS)."""
+
+    EPOCH = _dt.datetime(2030, 1, 1)
+
+    def __init__(self, tick_us=1000):
+        self.t = _dt.datetime(2030, 6, 1, 12, 0, 0, 1)
+        self.tick = _dt.timedelta(microseconds=tick_us)
+
+    def install(self):
+        from tupimage import id_manager as im
+        clock = self
+
+        class FakeDT(_dt.datetime):
+            @classmethod
+            def now(cls, tz=None):
+                clock.t += clock.tick
+                return clock.t
+
+        self._orig = im.datetime
+        im.datetime = FakeDT
+
+    def uninstall(self):
+        from tupimage import id_manager as im
+        im.datetime = self._orig
+
+    def add(self, micros):
+        self.t += _dt.timedelta(microseconds=micros)
+
+    def micros(self):
+        return int((self.t - self.EPOCH) / _dt.timedelta(microseconds=1))
+
+
+# ---------------------------------------------------------------------------------------------
+# images, terminals
+# ---------------------------------------------------------------------------------------------
+def _image_for(case, td, which=0):
+    """returns the `image` argument of upload(); `which` selects another picture of the same shape (scenarios)"""
+    img = U.noise_image(case["w"], case["h"], case["img_seed"] + which)
     src = case["source"]
     if src == "memory":
         return img
-    path = os.path.join(td, "img." + ("png" if src == "png-file" else "jpg"))
+    path = os.path.join(td, ("img" if not which else f"img{which}") + "." + ("png" if src == "png-file" else "jpg"))
     if not os.path.exists(path):
         img.save(path, format="PNG" if src == "png-file" else "JPEG")
     return path
 
 
-def _mk(td, case, log, sink=None, dbname="s.db"):
+def _token_for(case, td, which=0):
+    """content token (as SpecTerminal computes it from what arrived) of the pixels the request asks for"""
+    from PIL import Image
+    img = _image_for(case, td, which)
+    if isinstance(img, str):
+        img = Image.open(img)
+        img.load()
+    return token_of_image(img) + f"@{img.size[0]}x{img.size[1]}"
+
+
+def _layers(case):
+    tm = case.get("tmux")
+    return int(tm["layers"]) if tm else 0
+
+
+def _mk(td, case, log, sink=None, dbname="s.db", detect_as=None):
+    """detect_as = name of a scenario client: the library detects terminal name/id and session id itself (from the
+    environment the harness has set for that client); otherwise the fixed terminal id T1."""
     U.scrub_env()
     cfg = dict(max_command_size=case["max_command_size"], upload_method=case["method"], id_space=case.get("id_space", "24bit"))
-    t, cmd, disp = U.make_terminal(os.path.join(td, dbname), "T1", log, tty(), cmd_sink=sink, **cfg)
-    return t, cmd, disp
+    cfg.update(case.get("config", {}))
+    if case.get("tmux"):
+        cfg["num_tmux_layers"] = _layers(case)
+    if detect_as is None:
+        return U.make_terminal(os.path.join(td, dbname), "T1", log, tty(), cmd_sink=sink, **cfg)
+    return U.make_terminal(os.path.join(td, dbname), None, log, tty(), cmd_sink=sink, terminal_name=None, session_id=None,
+                           stream_name=detect_as, **cfg)
+
+
+class _Env:
+    """PATH with the fake tmux first (cases with tmux layers); restores the environment on exit"""
+
+    def __init__(self, case, td):
+        self.case, self.td = case, td
+
+    def __enter__(self):
+        self.saved = dict(os.environ)
+        tm = self.case.get("tmux")
+        if tm:
+            from .ptyhost import write_fake_tmux
+            write_fake_tmux(os.path.join(self.td, "bin"))
+            os.environ["PATH"] = os.path.join(self.td, "bin") + ":" + self.saved.get("PATH", "")
+            os.environ["FAKE_TMUX_pid"] = str(tm.get("server_pid", 4000))
+            os.environ["FAKE_TMUX_session_id"] = tm.get("session", "$3")
+            os.environ["FAKE_TMUX_client_pid"] = "4001"
+            os.environ["FAKE_TMUX_client_termname"] = "xterm-kitty"
+        return self
+
+    def attach(self, client):
+        """make `client` (a dict: tmux client pid/termname, or X window id) the terminal the process talks to"""
+        if self.case.get("tmux"):
+            os.environ["FAKE_TMUX_client_pid"] = str(client["pid"])
+            os.environ["FAKE_TMUX_client_termname"] = client.get("termname", "xterm-kitty")
+        elif "windowid" in client:
+            os.environ["WINDOWID"] = client["windowid"]
+
+    def __exit__(self, *a):
+        for k in list(os.environ):
+            if k not in self.saved:
+                del os.environ[k]
+        os.environ.update(self.saved)
+
+
+# ---------------------------------------------------------------------------------------------
+# the specification side: what a terminal received
+# ---------------------------------------------------------------------------------------------
+def _deliver(spec, segment: bytes, now: int):
+    """the bytes one request wrote reach the terminal; returns the framing defects of THIS segment"""
+    if spec.partial is not None:
+        # left open by an EARLIER request (a reported failure): closed as incomplete at the request boundary
+        spec._arrive_incomplete(now)
+    m0, n0 = spec.malformed, len(spec.log)
+    spec.feed(bytes(segment), now, lambda *a: None)
+    new = spec.log[:len(spec.log) - n0]
+    defects = []
+    if spec.malformed > m0:
+        defects.append(f"{spec.malformed - m0} piece(s) that are not well-formed escape codes / wrappers")
+    cut = sum(1 for a in new if a["token"] == "INCOMPLETE")
+    if cut:
+        defects.append(f"{cut} chunked transmission(s) cut off and followed by another command")
+    if spec.partial is not None:
+        defects.append("ends inside a chunked transmission (last chunk with m=1)")
+    bad = [a["token"] for a in new if a["token"] in ("UNREADABLE", "UNDECODABLE")]
+    if bad:
+        defects.append("payload(s) the terminal cannot read/decode: " + ",".join(bad))
+    return defects, len(new)
+
+
+def _holds(spec, iid, token):
+    if spec.partial is not None and int(spec.partial["keys"].get("i", 0)) == iid:
+        return False
+    for a in spec.log:          # newest first
+        if a["id"] == iid:
+            return a["token"] == token
+    return False
+
+
+def _latest(spec, iid):
+    for a in spec.log:
+        if a["id"] == iid:
+            return a
+    return None
+
+
+def _rows_full(dbfile):
+    import sqlite3
+    con = sqlite3.connect(dbfile)
+    try:
+        return sorted(con.execute("SELECT id, terminal, description, size, upload_time FROM upload").fetchall())
+    finally:
+        con.close()
+
+
+# ---------------------------------------------------------------------------------------------
+# the fault-free dry run: learns the I/O program of the request
+# ---------------------------------------------------------------------------------------------
+_DRY = {}
+
+
+def _plan_key(case):
+    return json.dumps([case.get(k) for k in ("method", "source", "w", "h", "img_seed", "max_command_size", "id_space", "id", "config")]
+                      + [_layers(case), _req_client(case)], sort_keys=True)
+
+
+def _req_client(case):
+    """(name, description) of the scenario client the faulted request is made on; None = the fixed terminal T1"""
+    cl = case.get("clients")
+    if cl and case.get("req") and cl.get(case["req"]["client"]):
+        return [case["req"]["client"], cl[case["req"]["client"]]]
+    return None
 
 
 def _dry_run(case, td):
-    """fault-free run on its own database: the chunk list, and the stream state when mark_uploaded ran."""
-    log = U.EventLog()
-    t, cmd, disp = _mk(td, case, log, dbname="dry.db")
-    seen = {}
-    orig = t.id_manager.mark_uploaded
+    """fault-free run on its own database: the chunk list, and the stream state when mark_uploaded ran.
+    Deterministic in the plan (memoised per process; only lengths and states are used, never the paths)."""
+    key = _plan_key(case)
+    if key not in _DRY:
+        _DRY[key] = _dry_run_uncached(case, td)
+    return _DRY[key]
 
-    def spy(*a, **kw):
-        seen["calls"] = cmd.calls
-        seen["flushed"] = cmd.flushed
-        seen["bytes"] = len(cmd.buf)
-        return orig(*a, **kw)
 
-    t.id_manager.mark_uploaded = spy
-    if case.get("id"):
-        t.assign_id(_image_for(case, td), force_id=case["id"])
-    inst = t.upload(_image_for(case, td))
-    chunks = [len(e[3]) for e in log.events if e[1].startswith("cmd:") and e[2] == "write"]
-    kinds = [e[2] for e in log.events if e[1].startswith("cmd:")]
-    rows = U.upload_rows(os.path.join(td, "dry.db"))
-    need = t.needs_uploading(inst.id)
-    t.id_manager.close()
-    return dict(chunks=chunks, kinds=kinds, mark_state=seen, rows=rows, needs=need, stream=cmd.value(), id=inst.id)
+def _dry_run_uncached(case, td):
+    with _Env(case, td) as env:
+        log = U.EventLog()
+        rc = _req_client(case)
+        if rc:
+            # the terminal program behind the client decides what is sent (formats it decodes): detect as that client
+            env.attach(rc[1])
+            t, cmd, disp = _mk(td, case, log, dbname="dry.db", detect_as=rc[0])
+            env.attach(rc[1])
+        else:
+            t, cmd, disp = _mk(td, case, log, dbname="dry.db")
+        seen = {}
+        orig = t.id_manager.mark_uploaded
+
+        def spy(*a, **kw):
+            seen["calls"] = cmd.calls
+            seen["flushed"] = cmd.flushed
+            seen["bytes"] = len(cmd.buf)
+            return orig(*a, **kw)
+
+        t.id_manager.mark_uploaded = spy
+        if case.get("id"):
+            t.assign_id(_image_for(case, td), force_id=case["id"])
+        inst = t.upload(_image_for(case, td))
+        chunks = [len(e[3]) for e in log.events if e[1].startswith("cmd:") and e[2] == "write"]
+        kinds = [e[2] for e in log.events if e[1].startswith("cmd:")]
+        rows = U.upload_rows(os.path.join(td, "dry.db"))
+        need = t.needs_uploading(inst.id)
+        t.id_manager.close()
+        # F (wire): the fault-free request wrote well-formed complete transmissions and the terminal holds the image
+        spec = SpecTerminal("dry", layers=_layers(case))
+        defects, _n = _deliver(spec, cmd.value(), 0)
+        holds = _holds(spec, inst.id, _token_for(case, td))
+        try:
+            os.unlink(os.path.join(td, "dry.db"))
+        except OSError:
+            pass
+        return dict(chunks=chunks, kinds=kinds, mark_state=seen, rows=rows, needs=need, stream=cmd.value(), id=inst.id,
+                    wire_defects=defects, holds=holds)
+
+
+def _fault_spec(c, f, dry):
+    """(driver fault token, extra bytes accepted by a partial write) for the model request"""
+    partial = 0
+    after = bool(f.get("after")) and f["kind"] != "stall"
+    if f["kind"] == "eagain" and f.get("partial"):
+        after = False
+        if f["at"] < len(dry["kinds"]) and dry["kinds"][f["at"]] == "write":
+            n = dry["chunks"][(f["at"] - 1) // 2]
+            partial = n // 2 if n >= 2 else 0
+    return f"{f['at']}:{'died' if f['kind'] == 'died' else 'io'}:{1 if after else 0}", partial
+
+
+def _fault_label(f):
+    return "fault:" + f["kind"] + ("/partial" if f.get("partial") else "/after" if f.get("after") else "/before")
 
 
 def check_case(ctx: Ctx, c: dict):
+    if c.get("k") == "scenario":
+        return _check_scenario(ctx, c)
     d = ctx.driver("drv_e2e")
     td = tempfile.mkdtemp(prefix="vc09")
     try:
@@ -105,23 +337,27 @@ def check_case(ctx: Ctx, c: dict):
             ctx.violation("upload recorded before the last byte of the last chunk was written and flushed", c,
                           {"mark_at_call": ms.get("calls"), "calls": ncalls, "flushed": ms.get("flushed"), "bytes": sum(chunks)},
                           key="marked-before-last-flush")
+        if dry["rows"] and (dry["wire_defects"] or not dry["holds"]):
+            ctx.violation("upload recorded, but what the terminal received is not a well-formed complete transmission of the image", c,
+                          {"defects": dry["wire_defects"], "terminal_holds_image": dry["holds"]}, key="recorded-but-wire-not-complete")
         f = c.get("fault")
         if not f:
             return
         if f["at"] >= ncalls:
             ctx.count("fault-beyond-program")
             return
-        fs = f"{f['at']}:{'died' if f['kind'] == 'died' else 'io'}:{1 if (f.get('after') and f['kind'] != 'stall') else 0}"
+        fs, partial = _fault_spec(c, f, dry)
         model = d.ask(f"upload {','.join(map(str, chunks))} {fs}").split()
-        ctx.count("fault:" + f["kind"] + ("/after" if f.get("after") else "/before"))
-        stall = f["kind"] == "stall"
+        ctx.count(_fault_label(f))
         pre = c.get("pre", "fresh")
         if f["kind"] == "died":
             _crash_variant(ctx, c, td, dry, model)
             return
         log = U.EventLog()
         t, cmd, disp = _mk(td, c, log)
+        spec = SpecTerminal("T1")
         img = _image_for(c, td)
+        token = _token_for(c, td)
         # same ID as in the dry run (the header length, hence the chunking, depends on its digits)
         if pre == "recycled":
             # the ID is already marked on this terminal with ANOTHER description (recycled ID)
@@ -131,6 +367,7 @@ def check_case(ctx: Ctx, c: dict):
         rows_before = U.upload_rows(os.path.join(td, "s.db"))
         cmd.fault = f
         cmd.armed = True
+        cmd.eagain_fired = False
         base_calls, base_bytes = cmd.calls, len(cmd.buf)
         try:
             inst = t.upload(img)
@@ -143,15 +380,23 @@ def check_case(ctx: Ctx, c: dict):
         rows_after = U.upload_rows(os.path.join(td, "s.db"))
         marked = rows_after != rows_before
         impl = [result, str(cmd.calls - base_calls), str(len(cmd.buf) - base_bytes), "1" if marked else "0"]
-        ctx.eq("faulted upload outcome", c, impl, [model[0], model[1], model[2], model[4]])
+        ctx.eq("faulted upload outcome", c, impl, [model[0], model[1], str(int(model[2]) + partial), model[4]])
         # F
         if result == "ok":
             ctx.violation("an I/O error during the transmission did not reach the caller", c, impl, key="error-swallowed")
         if marked:
             ctx.violation("upload table changed although the transmission failed", c,
                           {"before": rows_before, "after": rows_after}, key="marked-after-fault")
-        ident = dry["id"] if pre == "fresh" else None
+        # F (wire): the bytes of this request reach the terminal; if the upload counts as done, they must be well-formed
+        # complete transmissions and the terminal must hold the image
+        defects, _n = _deliver(spec, bytes(cmd.buf[base_bytes:]), 1)
         all_ids = [i.id for i in t.id_manager.get_all()]
+        if len(all_ids) == 1 and (marked or result == "ok") and not t.needs_uploading(all_ids[0]) \
+                and (defects or not _holds(spec, all_ids[0], token)):
+            ctx.violation("the image counts as uploaded, but what the terminal received during the request is not a sequence of "
+                          "well-formed complete transmissions of it (a command cut off in the middle, followed by another)", c,
+                          {"result": result, "defects": defects, "terminal_holds_image": _holds(spec, all_ids[0], token),
+                           "bytes_written": len(cmd.buf) - base_bytes, "one_transmission": sum(chunks)}, key="recorded-but-wire-not-complete")
         if len(all_ids) == 1:
             the_id = all_ids[0]
             if not t.needs_uploading(the_id):
@@ -161,11 +406,16 @@ def check_case(ctx: Ctx, c: dict):
             try:
                 t.upload(img)
                 again = bytes(cmd.buf[n0:])
+                defects, _n = _deliver(spec, again, 2)
                 if len(again) != sum(chunks):
                     ctx.violation("the request after a failed transmission did not transmit the image again in full", c,
                                   {"retransmitted_bytes": len(again), "full": sum(chunks)}, key="retransmit-incomplete")
                 elif not [r for r in U.upload_rows(os.path.join(td, "s.db")) if r[0] == the_id and r[2] != "older-description"]:
                     ctx.violation("successful retransmission not recorded", c, key="complete-not-marked")
+                elif defects or not _holds(spec, the_id, token):
+                    ctx.violation("after the retry the upload is recorded, but the retry did not write a well-formed complete transmission "
+                                  "of the image", c, {"defects": defects, "terminal_holds_image": _holds(spec, the_id, token)},
+                                  key="recorded-but-wire-not-complete")
             except Exception as e:
                 ctx.mismatch("retry raised", c, repr(e), "ok")
         t.id_manager.close()
@@ -211,6 +461,161 @@ def _crash_variant(ctx, c, td, dry, model):
     t.id_manager.close()
 
 
+# ---------------------------------------------------------------------------------------------
+# history scenarios: a fault-free pre-history, then the faulted request, a clock advance, the retry
+# ---------------------------------------------------------------------------------------------
+AGE_GUARD_US = 1_000_000     # scenarios whose record age is within 1 s of the configured limit are not judged
+
+
+def _check_scenario(ctx: Ctx, c: dict):
+    d = ctx.driver("drv_e2e")
+    td = tempfile.mkdtemp(prefix="vc09s")
+    clock = _Clock(c.get("tick_us", 1000))
+    try:
+        dry = _dry_run(c, td)           # (on the real clock, its own database: the I/O program of "upload image 0 under the id")
+        chunks = dry["chunks"]
+        ncalls = len(dry["kinds"])
+        f = c["fault"]
+        ctx.count("scenario:" + c.get("family", "?"))
+        if f["at"] >= ncalls:
+            ctx.count("fault-beyond-program")
+            return
+        fs, partial = _fault_spec(c, f, dry)
+        model = d.ask(f"upload {','.join(map(str, chunks))} {fs}").split()
+        ctx.count(_fault_label(f))
+        layers = _layers(c)
+        clients = c.get("clients") or {"T": {}}
+        limit_us = int(c.get("config", {}).get("reupload_max_seconds_ago", 3600)) * 1_000_000
+        dbfile = os.path.join(td, "s.db")
+        the_id = c["id"]
+        clock.install()
+        with _Env(c, td) as env:
+            log = U.EventLog()
+            terms = {}
+
+            def term(name):
+                env.attach(clients[name])
+                if name not in terms:
+                    t, cmd, disp = _mk(td, c, log, detect_as=(name if clients[name] else None))
+                    terms[name] = dict(t=t, cmd=cmd, spec=SpecTerminal(name, layers=layers), pos=0)
+                    env.attach(clients[name])      # (_mk scrubs WINDOWID)
+                return terms[name]
+
+            def deliver(T):
+                seg = bytes(T["cmd"].buf[T["pos"]:])
+                T["pos"] += len(seg)
+                defects, n = _deliver(T["spec"], seg, clock.micros())
+                return seg, defects
+
+            def request(T, which):
+                return T["t"].upload(_image_for(c, td, which), force_id=the_id)
+
+            # ---- the fault-free pre-history
+            for step in c.get("pre_steps", []):
+                if step["op"] == "clock":
+                    clock.add(step["add_us"])
+                    ctx.count("clock:back" if step["add_us"] < 0 else "clock:still" if step["add_us"] == 0 else "clock:forward")
+                    continue
+                T = term(step["client"])
+                request(T, step["img"])
+                seg, defects = deliver(T)
+                if defects or not _holds(T["spec"], the_id, _token_for(c, td, step["img"])):
+                    ctx.violation("a fault-free request returned, but its terminal does not hold the requested image under the id "
+                                  "(or received malformed / cut-off commands)", c,
+                                  {"step": step, "defects": defects, "bytes_written": len(seg),
+                                   "terminal_latest": _latest(T["spec"], the_id)}, key="returned-but-terminal-lacks-image")
+            # ---- the faulted request
+            rq = c["req"]
+            T = term(rq["client"])
+            t, cmd, spec = T["t"], T["cmd"], T["spec"]
+            token = _token_for(c, td, rq["img"])
+            latest = _latest(spec, the_id)
+            held = _holds(spec, the_id, token)
+            age = clock.micros() - latest["time"] if latest else None
+            if held and abs(age - limit_us) < AGE_GUARD_US:
+                ctx.count("not-judged:age-near-limit")
+                return
+            must_transmit = (not held) or age > limit_us
+            ctx.count("request:" + ("terminal-lacks-image" if not held else "record-expired" if must_transmit else "held-and-fresh"))
+            if not must_transmit:
+                return          # (not generated: nothing of C09 to judge when no transmission is due)
+            rows_before = _rows_full(dbfile)
+            base_calls, base_bytes = cmd.calls, len(cmd.buf)
+            cmd.fault = dict(f, at=f["at"] + base_calls)     # (the stream counts its calls from the first request on)
+            cmd.armed = True
+            cmd.eagain_fired = False
+            try:
+                request(T, rq["img"])
+                result = "ok"
+            except OSError:
+                result = "ioerror"
+            except Exception as e:
+                result = "other:" + type(e).__name__
+            cmd.armed = False
+            rows_after = _rows_full(dbfile)
+            marked = rows_after != rows_before
+            nbytes = len(cmd.buf) - base_bytes
+            impl = [result, str(cmd.calls - base_calls), str(nbytes), "1" if marked else "0"]
+            ctx.eq("faulted upload outcome (after a history)", c, impl, [model[0], model[1], str(int(model[2]) + partial), model[4]])
+            seg, defects = deliver(T)
+            why = ("its terminal does not hold the image under the id (latest arrival: %r)" % (latest and latest["token"],) if not held
+                   else "the record of its last upload is %.0f s old (limit %.0f s)" % (age / 1e6, limit_us / 1e6))
+            if result == "ok" and cmd.calls - base_calls <= f["at"]:
+                ctx.violation("the request returned without transmitting although " + why + "; the write/flush that was to fail was "
+                              "never reached, so no error could reach the caller", c,
+                              {"io_calls": cmd.calls - base_calls, "bytes_written": nbytes, "fault": f, "upload_rows": rows_after,
+                               "library_terminal_id": t._terminal_id},
+                              key="no-transmission-although-terminal-lacks-image" if not held else "no-transmission-although-record-expired")
+            elif result == "ok":
+                ctx.violation("an I/O error during the transmission did not reach the caller", c, impl, key="error-swallowed")
+            if marked:
+                ctx.violation("upload table changed although the transmission failed", c,
+                              {"before": rows_before, "after": rows_after}, key="marked-after-fault")
+            if result == "ok" and nbytes and (defects or not _holds(spec, the_id, token)):
+                ctx.violation("the request returned normally, but what its terminal received during the request is not a sequence of "
+                              "well-formed complete transmissions of the image", c,
+                              {"defects": defects, "terminal_holds_image": _holds(spec, the_id, token), "bytes_written": nbytes,
+                               "one_transmission": sum(chunks)}, key="recorded-but-wire-not-complete")
+            env.attach(clients[rq["client"]])
+            if not t.needs_uploading(the_id):
+                ctx.violation("needs_uploading is false after a failed transmission", c,
+                              {"id": the_id, "when": "right after the failure", "library_terminal_id": t._terminal_id,
+                               "upload_rows": rows_after}, key="no-reupload-after-fault")
+            # ---- time passes; the image still has to be sent, and the retry sends it in full
+            gap = int(c.get("gap_us", 0))
+            clock.add(gap)
+            if gap and not t.needs_uploading(the_id):
+                ctx.violation("needs_uploading became false without any successful transmission, just by time passing after a failed one", c,
+                              {"id": the_id, "record_age_s_at_failure": age and age / 1e6, "gap_s": gap / 1e6, "upload_rows": rows_after},
+                              key="no-reupload-after-fault")
+            try:
+                request(T, rq["img"])
+                again, defects = deliver(T)
+                if len(again) != sum(chunks):
+                    ctx.violation("the request after a failed transmission did not transmit the image again in full", c,
+                                  {"retransmitted_bytes": len(again), "full": sum(chunks), "gap_s": gap / 1e6,
+                                   "record_age_s_at_failure": age and age / 1e6, "library_terminal_id": t._terminal_id},
+                                  key="retransmit-incomplete")
+                elif defects or not _holds(spec, the_id, token):
+                    ctx.violation("the retry did not leave a well-formed complete transmission of the image on its terminal", c,
+                                  {"defects": defects, "terminal_latest": _latest(spec, the_id)}, key="recorded-but-wire-not-complete")
+                elif t.needs_uploading(the_id):
+                    ctx.violation("successful retransmission not recorded", c, key="complete-not-marked")
+            except Exception as e:
+                ctx.mismatch("retry raised", c, repr(e), "ok")
+            for T in terms.values():
+                T["t"].id_manager.close()
+    finally:
+        try:
+            clock.uninstall()
+        except AttributeError:
+            pass
+        shutil.rmtree(td, ignore_errors=True)
+
+
+# ---------------------------------------------------------------------------------------------
+# generators
+# ---------------------------------------------------------------------------------------------
 def _rand_id(rng, space):
     b = lambda lo=0: rng.randrange(lo, 256)
     if space == "8bit":
@@ -240,25 +645,118 @@ def plans(ctx: Ctx):
         yield dict(p, k="upload", img_seed=rng.randrange(1 << 30), id_space=sp, id=_rand_id(rng, sp))
 
 
+FAULT_KINDS = (("io", False, False), ("io", True, False), ("died", False, False), ("stall", False, False),
+               ("eagain", False, False), ("eagain", True, False), ("eagain", False, True))
+
+
+def _ncalls(p):
+    td = tempfile.mkdtemp(prefix="vc09p")
+    try:
+        return len(_dry_run(p, td)["kinds"])
+    finally:
+        shutil.rmtree(td, ignore_errors=True)
+
+
 def cases(ctx: Ctx):
     for p in plans(ctx):
-        td = tempfile.mkdtemp(prefix="vc09p")
-        try:
-            ncalls = len(_dry_run(p, td)["kinds"])
-        finally:
-            shutil.rmtree(td, ignore_errors=True)
+        ncalls = _ncalls(p)
         yield p  # fault-free
         for at in range(ncalls + 1):
-            for kind, after in (("io", False), ("io", True), ("died", False), ("stall", False)):
+            for kind, after, partial in FAULT_KINDS:
                 if kind == "died" and ctx.quick and at % 3 != 0 and at > 4 and at != ncalls - 1:
                     continue
-                yield dict(p, fault=dict(at=at, kind=kind, after=after), pre=("recycled" if (at % 4 == 3 and kind == "io") else "fresh"))
+                if partial and at % 2 == 0:
+                    continue          # (a prefix can only be accepted by a write; flush calls are covered by before/after)
+                fault = dict(at=at, kind=kind, after=after)
+                if partial:
+                    fault["partial"] = True
+                yield dict(p, fault=fault, pre=("recycled" if (at % 4 == 3 and kind == "io") else "fresh"))
+    yield from scenario_cases(ctx)
+
+
+H = 3600 * 1_000_000
+MIN = 60 * 1_000_000
+# (clock step between upload A and upload B, clock step between upload B and the faulted request for A, tick per clock reading)
+REBIND_CLOCKS = [(-H, 0, 1000), (-1, 0, 0), (0, 0, 0), (-48 * H, H, 1000), (H, -2 * H, 1000), (-MIN, -MIN, 0), (-5000, 0, 1000), (H, 0, 1000)]
+# (reupload_max_seconds_ago or None = default 1 h, age of the record at the faulted re-upload, age at the retry), µs
+EXPIRED_AGES = [(None, 23 * H + 50 * MIN, 24 * H + 5 * MIN), (None, 47 * H + 59 * MIN, 48 * H + MIN), (None, 2 * H, 3 * H),
+                (None, H + 100_000_000, H + 200_000_000), (None, 25 * H - MIN, 49 * H + 30 * MIN), (60, 24 * H - 10_000_000, 24 * H + 30_000_000),
+                (None, 23 * H, 23 * H + 30 * MIN), (None, 30 * 24 * H + 2 * H, 31 * 24 * H + 10 * MIN), (86400, 24 * H + MIN, 48 * H + 2 * MIN),
+                (7200, 5 * H, 24 * H + H)]
+# the other terminal of the session that received the image first
+CLIENT_SETUPS = [
+    dict(tmux=dict(layers=1, server_pid=4000, session="$3"), clients={"a": {"pid": 4101, "termname": "xterm-kitty"}, "b": {"pid": 4202, "termname": "xterm-kitty"}}),
+    dict(tmux=dict(layers=2, server_pid=977, session="$0"), clients={"a": {"pid": 31007, "termname": "xterm-kitty"}, "b": {"pid": 31008, "termname": "xterm-kitty"}}),
+    dict(clients={"a": {"windowid": "41943046"}, "b": {"windowid": "41943047"}}),
+    dict(tmux=dict(layers=1, server_pid=4000, session="$12"), clients={"a": {"pid": 4101, "termname": "xterm-256color"}, "b": {"pid": 41010, "termname": "xterm-256color"}}),
+    dict(tmux=dict(layers=1, server_pid=4000, session="$3"), clients={"a": {"pid": 4101, "termname": "xterm-kitty"}, "b": {"pid": 4202, "termname": "st-256color"}}),
+]
+SCENARIO_FAULTS = [("io", False, False), ("eagain", True, False), ("io", True, False), ("eagain", False, False), ("stall", False, False),
+                   ("eagain", False, True)]
+
+
+def scenario_cases(ctx: Ctx):
+    rng = ctx.rng
+    shapes = [dict(method="direct", source="memory", w=8, h=8, max_command_size=180),
+              dict(method="file", source="png-file", w=10, h=10, max_command_size=4096),
+              dict(method="file", source="memory", w=10, h=10, max_command_size=4096)]
+    if not ctx.quick:
+        shapes += [dict(method="direct", source="png-file", w=10, h=10, max_command_size=200),
+                   dict(method="file", source="jpeg-file", w=10, h=10, max_command_size=4096),
+                   dict(method="direct", source="memory", w=12, h=12, max_command_size=160)]
+    n = 0
+    for si, sh in enumerate(shapes):
+        sp = rng.choice(["24bit", "32bit", "8bit", "16bit"])
+        base = dict(sh, k="scenario", img_seed=rng.randrange(1 << 30), id_space=sp, id=_rand_id(rng, sp))
+
+        def faults(ncalls, variants, per_position):
+            """every write/flush index of the program × `per_position` variants (all of them in the thorough tier), fault kinds in turn"""
+            nonlocal n
+            for at in range(ncalls):
+                vs = range(len(variants)) if not ctx.quick else [(at * per_position + j + si) % len(variants) for j in range(per_position)]
+                for vi in vs:
+                    kind, after, partial = SCENARIO_FAULTS[n % len(SCENARIO_FAULTS)]
+                    n += 1
+                    fault = dict(at=at, kind=kind, after=after)
+                    if partial and at % 2 == 1:
+                        fault["partial"] = True
+                    yield variants[vi], fault
+
+        ncalls = _ncalls(base)
+        for (d1, d2, tick), fault in faults(ncalls, REBIND_CLOCKS, 2):
+            yield dict(base, family="rebind", tick_us=tick, fault=fault, req={"client": "T", "img": 0},
+                       pre_steps=[{"op": "upload", "client": "T", "img": 0}, {"op": "clock", "add_us": d1},
+                                  {"op": "upload", "client": "T", "img": 1}, {"op": "clock", "add_us": d2}])
+        for (limit, age1, age2), fault in faults(ncalls, EXPIRED_AGES, 2):
+            cdict = dict(base, family="expired", fault=fault, req={"client": "T", "img": 0}, gap_us=age2 - age1,
+                         pre_steps=[{"op": "upload", "client": "T", "img": 0}, {"op": "clock", "add_us": age1}])
+            if limit is not None:
+                cdict["config"] = {"reupload_max_seconds_ago": limit}
+            yield cdict
+        if ctx.quick and si == 2:
+            continue        # (every request inside tmux costs a `tmux` child process)
+        for vi, setup in enumerate(CLIENT_SETUPS):
+            b2 = dict(base, req={"client": "b", "img": 0}, **setup)
+            for at in range(_ncalls(b2)):        # (the program is longer behind tmux layers: the wrappers count against the limit)
+                if ctx.quick and (at + si) % len(CLIENT_SETUPS) != vi:
+                    continue
+                kind, after, partial = SCENARIO_FAULTS[n % len(SCENARIO_FAULTS)]
+                n += 1
+                fault = dict(at=at, kind=kind, after=after)
+                if partial and at % 2 == 1:
+                    fault["partial"] = True
+                yield dict(b2, family="clients", fault=fault, gap_us=rng.choice([0, 0, MIN, 2 * H]),
+                           pre_steps=[{"op": "upload", "client": "a", "img": 0}])
 
 
 def run(ctx: Ctx):
     ctx.rule = ("every write/flush index of the upload's I/O program (learnt from a fault-free dry run) x {OSError before the call takes effect, "
-                "OSError after, process death} x {inline from memory with 1/2/3/~7/many chunks, inline from a PNG file, file medium for a PNG file, "
+                "OSError after, process death, persistent EAGAIN, one-shot EAGAIN before / after / after a partial write} x {inline from memory "
+                "with 1/2/3/~7/many chunks, inline from a PNG file, file medium for a PNG file, "
                 "temporary-file medium for a JPEG file and for an in-memory image} x {fresh, ID previously marked with another description}; "
+                "history scenarios under a controlled clock, every fault index of 3 (thorough: 6) upload shapes: one id re-bound A->B->A with the "
+                "clock stepping back / standing still, re-upload of an expired record with the retry after a further advance (ages straddling "
+                "multiples of 24 h), image first uploaded through another tmux client / X window of the session; "
                 "distinct = canonical JSON; non-trivial = the fault index lies inside the program")
     cdir = Path(__file__).resolve().parent.parent / "corpus" / "C09"
     if cdir.is_dir():
@@ -274,6 +772,7 @@ def run(ctx: Ctx):
         ctx.case(c, nontrivial=bool(c.get("fault")))
     ctx.extra["exhaustive_over_fault_positions"] = True
     ctx.assumptions += [
-        "a write fails either before any byte or after all bytes of that call were accepted (no partial writes)",
+        "a write fails before any byte, after all bytes, or (one-shot EAGAIN) after the first half of the bytes of that call were accepted",
         "pre-existing valid upload records of the same image (forced re-upload that fails) are outside the claim: the table is left unchanged (observed by K), see DESIGN.md C09",
+        "history scenarios: a request is judged only when the specification terminal lacks the image or its last arrival is older than the configured age limit by more than 1 s (then a transmission is due)",
     ]
